@@ -341,6 +341,16 @@ func c12Operands(seed int64) (*sbom.NodeList, *sbom.NodeList) {
 		b = fullNodeList(r, []string{"a", "b", "c"}, fullPop())
 	case 5:
 		b = fullNodeList(r, []string{"x", "y"}, fullPop())
+	case 6:
+		// the argument was extracted from the receiver and holds the receiver's own node objects (what NodeGraph,
+		// NodeSiblings, NodeDescendants and GetNodesByPurlType return)
+		b = &sbom.NodeList{Nodes: spare(append([]*sbom.Node{}, a.Nodes[:2]...)), RootElements: spare([]string{a.Nodes[0].Id})}
+		for _, e := range a.Edges {
+			b.Edges = append(b.Edges, e)
+		}
+		b.Edges = spare(b.Edges)
+	case 7:
+		b = a // one list in both places
 	}
 	return a, b
 }
